@@ -1,0 +1,88 @@
+//go:build verif
+
+// Contracts for the govc verifier (/verif). Comment-only: this file contains no code.
+package route
+
+//@ // ---- C12: access rules ------------------------------------------------------------------------
+//@ spec fun isBlock(x interface{}) bool = typeIs(x, *net.IPNet)
+//@ spec fun inAny(bs []interface{}, ip net.IP) bool = exists j int :: 0 <= j && j < len(bs) && isBlock(bs[j]) && blockContains(unbox(bs[j], *net.IPNet), ip)
+//@ spec fun restricted(t *Target) bool = len(t.accessRules) != 0
+//@ // admitted: what the configured lists say about an address (an address that did not parse is nil and lies in no block)
+//@ spec fun admitted(t *Target, ip net.IP) bool = hasKey(t.accessRules, "allow:ip") ? inAny(t.accessRules["allow:ip"], ip) : (hasKey(t.accessRules, "deny:ip") ? !inAny(t.accessRules["deny:ip"], ip) : true)
+//@
+//@ func (*Target).denyByIP
+//@   props C12
+//@   requires t != nil
+//@   assigns nothing
+//@   ensures nopanic
+//@   ensures !restricted(t) ==> !result
+//@   ensures restricted(t) ==> result == !admitted(t, ip)
+//@   loop 1 invariant forall j int :: 0 <= j && j <= rangeindex ==> !(isBlock(t.accessRules["allow:ip"][j]) && blockContains(unbox(t.accessRules["allow:ip"][j], *net.IPNet), ip))
+//@   loop 2 invariant forall j int :: 0 <= j && j <= rangeindex ==> !(isBlock(t.accessRules["deny:ip"][j]) && blockContains(unbox(t.accessRules["deny:ip"][j], *net.IPNet), ip))
+//@
+//@ spec fun xffOK(t *Target, host string, x string) bool = trimSpace(x) == host || parseIP(trimSpace(x)) == nil || admitted(t, parseIP(trimSpace(x)))
+//@
+//@ func (*Target).AccessDeniedHTTP
+//@   props C12
+//@   requires t != nil && r != nil
+//@   assigns nothing
+//@   sets accessTarget = t
+//@   sets accessAdmitted = !result
+//@   ensures nopanic
+//@   ensures !restricted(t) ==> !result
+//@   ensures restricted(t) && !result ==> splitErr(r.RemoteAddr) == nil && admitted(t, parseIP(splitHost(r.RemoteAddr)))
+//@   ensures restricted(t) && !result && hdr1[r.Header][canonKey("X-Forwarded-For")] != "" ==> forall j int :: 0 <= j && j < len(splitParts(hdr1[r.Header][canonKey("X-Forwarded-For")], ",")) ==> xffOK(t, splitHost(r.RemoteAddr), splitParts(hdr1[r.Header][canonKey("X-Forwarded-For")], ",")[j])
+//@   loop 1 invariant forall j int :: 0 <= j && j <= rangeindex ==> xffOK(t, host, splitParts(xff, ",")[j])
+//@
+//@ func (*Target).AccessDeniedTCP
+//@   props C12
+//@   requires t != nil && c != nil
+//@   assigns nothing
+//@   sets accessTarget = t
+//@   sets accessAdmitted = !result
+//@   ensures nopanic
+//@   ensures !restricted(t) ==> !result
+//@   ensures restricted(t) && !result ==> typeIs(connRemote(c), *net.TCPAddr) && admitted(t, unbox(connRemote(c), *net.TCPAddr).IP)
+//@
+//@ func (*Target).Authorized
+//@   props C12
+//@   requires t != nil
+//@   assigns lastStatus, statusWrites
+//@   sets authAccepted = result
+//@   ensures nopanic
+//@   ensures t.AuthScheme == "" ==> result
+//@   ensures t.AuthScheme != "" && authSchemes[t.AuthScheme] == nil ==> !result
+//@   ensures t.AuthScheme != "" && authSchemes[t.AuthScheme] != nil ==> result == authDecision(authSchemes[t.AuthScheme], r)
+//@
+//@ func (*Target).ProcessAccessRules
+//@   props C12
+//@   requires t != nil
+//@   assigns t.accessRules, elems(interface{}), mapsOf(map[string][]interface{})
+//@   ensures nopanic
+//@   ensures result != nil ==> restricted(t) && hasKey(t.accessRules, "allow:ip") && len(t.accessRules["allow:ip"]) == 0
+//@   ensures result == nil && t.Opts["allow"] != "" ==> hasKey(t.accessRules, "allow:ip")
+//@   ensures result == nil && t.Opts["deny"] != "" ==> hasKey(t.accessRules, "deny:ip")
+//@   loop 1 invariant rangeindex >= 0 && t.Opts["allow"] != "" ==> hasKey(t.accessRules, "allow:ip")
+//@   loop 1 invariant rangeindex >= 1 && t.Opts["deny"] != "" ==> hasKey(t.accessRules, "deny:ip")
+//@   loop 1 invariant !(t.Opts["allow"] != "" && t.Opts["deny"] != "")
+//@
+//@ func (*Target).parseAccessRule
+//@   props C12
+//@   requires t != nil && (allowDeny == "allow" || allowDeny == "deny")
+//@   assigns t.accessRules, elems(interface{}), mapsOf(map[string][]interface{})
+//@   ensures nopanic
+//@   ensures t.accessRules != nil
+//@   ensures result == nil && allowDeny == "allow" ==> hasKey(t.accessRules, "allow:ip")
+//@   ensures result == nil && allowDeny == "deny" ==> hasKey(t.accessRules, "deny:ip")
+//@   ensures forall k string :: old(t.accessRules) != nil && hasKey(old(t.accessRules), k) ==> t.accessRules == old(t.accessRules) && hasKey(t.accessRules, k)
+//@   loop 1 invariant t.accessRules != nil && (old(t.accessRules) != nil ==> t.accessRules == old(t.accessRules))
+//@   loop 1 invariant rangeindex >= 0 && allowDeny == "allow" ==> hasKey(t.accessRules, "allow:ip")
+//@   loop 1 invariant rangeindex >= 0 && allowDeny == "deny" ==> hasKey(t.accessRules, "deny:ip")
+//@   loop 1 invariant forall k string :: old(t.accessRules) != nil && old(hasKey(t.accessRules, k)) ==> hasKey(t.accessRules, k)
+//@
+//@ func (*Target).denyAll
+//@   props C12
+//@   requires t != nil
+//@   assigns t.accessRules
+//@   ensures nopanic
+//@   ensures restricted(t) && hasKey(t.accessRules, "allow:ip") && len(t.accessRules["allow:ip"]) == 0
